@@ -134,7 +134,10 @@ async def run_flow(loop: VLoop, c):
     t = FlowTransport()
     t.protocol = p
     loop.set_exception_handler(lambda lp, cx: log["exc"].append(str(cx.get("exception") or cx.get("message"))[:120]))
-    p.connection_made(t)
+    try:
+        p.connection_made(t)
+    except Exception as ex:  # noqa: BLE001
+        log["exc"].append(f"connection_made: {type(ex).__name__}: {ex}"[:120])
     lost = False
     lens = []
     for e in c["evs"]:
@@ -302,7 +305,20 @@ async def run_conn(loop: VLoop, c, middleware=None, upload_handler=None, handler
     if c.get("cert") is not None:
         cert_der = cert_pool()[c["cert"]][0]
     if c.get("peer"):
-        peer = (c["peer"], 4711)
+        # what asyncio reports as peername: (host, port) on AF_INET, (host, port, flowinfo, scope_id) on AF_INET6
+        peer = (c["peer"], 4711, 0, 0) if ":" in c["peer"] else (c["peer"], 4711)
+    else:
+        # the shape of the peer name is not part of the case: vary it (stable per case) over what real transports report
+        import json as _json
+        import zlib as _zlib
+
+        v = _zlib.crc32(_json.dumps(c, sort_keys=True, default=str).encode()) % 8
+        if v == 1:
+            peer = ("2001:db8::7", 4711, 0, 0)
+        elif v == 2:
+            peer = ("::1", 4711, 0, 0)
+        elif v == 3:
+            peer = ("fe80::1c2:3%eth0", 4711, 0, 3)
     log = {"h": 0, "u": 0, "m": 0, "content": b"", "order": [], "mwargs": [], "hargs": [], "exc": []}
     gates: dict = {}
     hspec = c["handler"]
@@ -362,7 +378,10 @@ async def run_conn(loop: VLoop, c, middleware=None, upload_handler=None, handler
     lost = False
     lens: list[int] = []
     wall, restore_wall = install_wall(sp)
-    p.connection_made(t)
+    try:
+        p.connection_made(t)
+    except Exception as ex:  # asyncio calls connection_made from the loop: the exception is logged, the connection goes on
+        log["exc"].append(f"connection_made: {type(ex).__name__}: {ex}"[:120])
     queue = [list(e) for e in c["evs"]]
     qi = 0
     while qi < len(queue):
